@@ -419,10 +419,23 @@ def sym_isinstance(obj, cls):
     return isinstance(obj, cls)
 
 
+class SymRange:
+    """range() with a symbolic bound: may be handed to a ghost (e.g. axis ticks) but not iterated"""
+
+    def __init__(self, *args):
+        self.args = args
+
+    def __iter__(self):
+        raise Unsupported(f"iteration over range() with symbolic bound {self.args}")
+
+    def __len__(self):
+        raise Unsupported("len() of a symbolic range")
+
+
 def sym_range(*args):
     for a in args:
         if is_sym(a):
-            raise Unsupported(f"range() over symbolic bound {a}")
+            return SymRange(*args)
     return range(*args)
 
 
@@ -596,6 +609,9 @@ class _NoPath:
         raise Unsupported("choice outside an exploration")
 
     def note_assumption(self, text):
+        pass
+
+    def add_clause(self, clause):
         pass
 
     stores = []
